@@ -579,7 +579,7 @@ fn eval(a: &[String]) -> String {
       use tyme4rs::tyme::lunar::{LunarYear, LunarDay};
       use tyme4rs::tyme::sixtycycle::SixtyCycleYear;
       let mut out = "NONE".to_string();
-      'scan: for y in (2019isize..=2026).chain([1574, 3358, 1575].into_iter()) {
+      'scan: for y in (2015isize..=2030).chain([1574, 3358, 1575].into_iter()) {
         let ly = LunarYear::from_year(y);
         let ms0 = ly.get_months();
         let sum: usize = ms0.iter().map(|m| m.get_day_count()).sum();
@@ -612,8 +612,9 @@ fn eval(a: &[String]) -> String {
         if y < 1600 { continue; }      // Julian-era years: the day -> term lookup has a known defect there (C06), the lunar-year checks above still apply
         let ms = SixtyCycleYear::from_year(y).get_months();
         // the double hours of every Jie day (the month / year pillars turn inside such a day)
-        for k in 0..12isize {
-          let jd = SolarTerm::from_index(y, 1 + 2 * k).get_julian_day().get_solar_day();
+        for k in 0..24isize {
+          // every Jie day and the day after it (a Jie late in the evening changes the pillars of the next day's first slot, 23:00 of the Jie day)
+          let jd = SolarTerm::from_index(y, 1 + 2 * (k / 2)).get_julian_day().get_solar_day().next(k % 2);
           for h in jd.get_sixty_cycle_day().get_hours() {
             let w = h.get_solar_time().get_sixty_cycle_hour();
             if w.get_year().get_index() != h.get_year().get_index() || w.get_month().get_index() != h.get_month().get_index() || w.get_day().get_index() != h.get_day().get_index() || w.get_sixty_cycle().get_index() != h.get_sixty_cycle().get_index() {
